@@ -145,7 +145,7 @@ open(os.path.join(ROOT, 'contracts', 'c15_entity.toml'), 'w').write(ehead + '\n'
 head = '''# GENERATED by tools/gen_c15.py -- edit the generator, not this file
 unit   = "c15_layout"
 engine = "kani-overlay"
-serves = ["C15"]
+serves = ["C15", "C16"]
 tier   = "quick"
 crate  = "ckb-gen-types"
 claim  = "fixed-size molecule layouts are decoded exactly canonically: Reader::verify accepts a byte string iff its length is the struct's total size, and the field accessors return consecutive, non-overlapping sub-slices in schema order that cover the input (so accepted bytes ARE the canonical encoding of the decoded value); integer readers unpack little-endian"
